@@ -351,7 +351,9 @@ def run(rep):
 
 def replay(rep, path):
     hbin = vlib.go_build("c06")
-    vlib.lake_build([EXE])
+    pr = vlib.prove(PROP, MODULES, exes=[EXE])
+    rep.add_proof(pr, "lake build BMV.Props.C06 && lake env lean <#audit_module BMV.Props.C06>",
+                  ["BMV.Frag is a hand-written model of the fragment composer; tied by correspondence only"])
     obj = json.load(open(path))
     text = obj.get("case") or (obj.get("first_disagreement") or {}).get("case") or ""
     d = vlib.scratch_dir("c06")
